@@ -211,10 +211,42 @@ def parseVarTable (s : String) : Option (List (String × Nat)) :=
     | [n, id] => id.toNat?.map (fun i => (n, i))
     | _ => none)
 
+/-- the function a printed table denotes: the result of the row covering the assignment (of the header's names, in
+the header's order) numbered `mask`; `none`: no row or more than one -/
+def tableValue (rows : List Row) (mask : Nat) : Option Bool :=
+  match rows.filter (fun r => rowCovers r mask) with
+  | [r] => some r.result
+  | _ => none
+
 /-- `order|text|cls|ordering (hexname:id,… for the API form, or T:<hex text> for a file)|ocls|
 vars default|result default|vars ordered|result ordered|roundtrip` -/
 def handleC11 (fields : List String) : Verdict :=
   match fields with
+  | ["tables", clsD, hdrD, rowsD, clsO, hdrO, rowsO] =>
+    -- the table printed under an ordering file against the table printed under the default order
+    if clsO == "panic" || clsO == "signal" then
+      { modelOk := true, oracle := some s!"the tool crashed ({clsO}) under an ordering file" }
+    else if clsD != "ok" || clsO != "ok" then { modelOk := true }
+    else match readRows rowsD, readRows rowsO with
+    | some rd, some ro =>
+      let nd := (hdrD.splitOn ",").filter (· ≠ "") |>.dropLast
+      let no := (hdrO.splitOn ",").filter (· ≠ "") |>.dropLast
+      if !(nd.all (no.contains ·) && no.all (nd.contains ·)) then
+        { modelOk := true, oracle := some s!"the columns under the ordering file ({no}) are not the columns under the default order ({nd})" }
+      else if nd.length > 12 then { modelOk := true }
+      else
+        -- assignment `mask` of the default header's names, re-indexed for the other header
+        let bad := (List.range (2 ^ nd.length)).find? (fun mask =>
+          let maskO := (no.zipIdx).foldl (fun acc (n, j) => match nd.idxOf? n with
+            | some i => if mask.testBit i then acc ||| (1 <<< j) else acc
+            | none => acc) 0
+          tableValue rd mask != tableValue ro maskO || (tableValue rd mask).isNone)
+        match bad with
+        | some mask =>
+          let msg := s!"under assignment {mask} of {nd} the table printed under the default order says {repr (tableValue rd mask)}, the table printed under the ordering file says otherwise (or a row is missing / doubled)"
+          { modelOk := true, nontrivial := true, oracle := some msg }
+        | none => { modelOk := true, nontrivial := rd.length > 1 }
+    | _, _ => { modelOk := false, modelOut := "a table", oracle := some "a printed table cannot be read" }
   | ["order", text, cls, ordering, ocls, varsD, resD, varsO, resO, roundtrip, freeD, freeO] =>
     match decodeText text cls, parseVarTable varsD, parseVarTable varsO with
     | some (some cs), some vD, some vO =>
